@@ -71,7 +71,7 @@ CLAIMED = {
               "sheet map: sheets x base chambers, operations lie over the base operations on the prescribed sheets and "
               "are involutions, degrees preserved, r the true orbit length, complete (2 sheets over 1 chamber in "
               "dimension 2 quick; 3 sheets, 2 chambers, dimension 3 thorough, stretch). (2) For every 2D symbol the "
-              "D-symbol generator yields on D-sets of at most 3 (thorough: 4) chambers — 98 (236) base symbols — the "
+              "D-symbol generator yields on D-sets of at most 4 (thorough: 5) chambers — 236 (318) base symbols — the "
               "real covers(B, 3) and oriented_cover(B) are run: every returned cover is complete, connected, its "
               "projection commutes with every operation, preserves every degree and has equal fibres (ground); the "
               "oriented cover is oriented with one sheet if B is oriented and two otherwise (ground); and the list of "
@@ -145,8 +145,8 @@ CLAIMED = {
                    "the presentation whose induced sheet map is not a covering of the symbol), unsat(a covering of the "
                    "symbol that the edge words do not reproduce or whose permutations violate a relator), with a "
                    "satisfiability guard against vacuity; models re-evaluated exactly against a fresh native run"),
-        text=("PARTIAL. For every 2D symbol the D-symbol generator yields on D-sets of at most 3 (thorough: 4) chambers — "
-              "98 (236) symbols — the real fundamental_group is run and its relators, generator edges and edge words are "
+        text=("PARTIAL. For every 2D symbol the D-symbol generator yields on D-sets of at most 4 (thorough: 5) chambers — "
+              "236 (318) symbols — the real fundamental_group is run and its relators, generator edges and edge words are "
               "turned into constants. For every degree s <= 3 the solver decides, over ALL tuples of symbolic "
               "permutations and ALL symbolic sheet maps, that the permutation representations of the presentation are "
               "exactly the s-sheeted coverings of the symbol (sheets transported along the spanning tree), related "
@@ -254,13 +254,13 @@ CLAIMED = {
 }
 
 NOT_APPLICABLE = {
-    "C03": "canonical form runs through Traversal (HashSet + BTreeMap + VecDeque); symbolic execution does not finish for 2 chambers",
-    "C08": "curvature/orbifold_symbol go through Traversal, oriented_cover, HashSet and String",
-    "C13": "HashMap/HashSet keyed by Vec<usize>; inputs are C11/C12 objects; oracle is a group isomorphism",
+    "C03": "canonical form runs through Traversal (HashSet + BTreeMap + VecDeque): symbolic execution does not finish for ONE chamber even on an array-backed D-set (re-measured in round 2); the property quantifies over renumberings of the INPUT, so running the code on enumerated inputs would leave no solver verdict",
+    "C08": "curvature/orbifold_symbol go through Traversal, oriented_cover, HashSet and String (symbolic execution out of reach); with enumerated input symbols every clause (Gauss-Bonnet identity, invariances, geometry class) is a ground computation with no solver verdict in it, i.e. another technique",
+    "C13": "HashMap/HashSet keyed by Vec<usize> (symbolic execution out of reach); run on the coset tables of the C12 configurations every obligation about core / intersection tables reduces to a ground orbit computation, and the stabiliser clause needs a group-isomorphism oracle: no solver verdict to report",
     "C15": "whole pipeline (covers, coset tables, stabiliser, invariants) on symbols with tens of chambers",
     "C16": "whole pipeline on symbols with hundreds of chambers; HashSet iteration order inside network_cut",
     "C17": "whole pipeline; verdict invariance over renumberings/covers is a statement about all stages together",
-    "C19": "BTreeSet/BTreeMap throughout min_edge_cut/augment; two symbolic BTreeSet inserts exhaust 20 GB",
+    "C19": "BTreeSet/BTreeMap throughout min_edge_cut/augment: min_edge_cut on 2 vertices and 1 symbolic edge gave no verdict in 1500 s on the block-allocator back end (round 2); the inputs (graphs) must be symbolic, so the input-free scheme does not apply",
 }
 
 PENDING = {}
